@@ -7,39 +7,54 @@ Require Import MV.Lib.Base MV.C03.Gen MV.C03.Model MV.C03.Run MV.C03.Proofs_Base
         MV.C03.Proofs_Orient MV.C03.Proofs_Maps MV.C03.Proofs_Ring MV.C03.Proofs_Closed MV.C03.Proofs_Sort MV.C03.Proofs_Cover MV.C03.Proofs_EdgeMap MV.C03.Proofs_Surface.
 Local Open Scope nat_scope.
 
-Definition faces_of (cells : list (list nat)) : list (list nat) := complete_faces [] cells.
-Definition edges_of (cells : list (list nat)) : list (list nat) := complete_edges [] (faces_of cells).
-Definition tables (cells : list (list nat)) : tabs := build cells (faces_of cells) (edges_of cells).
-(* a tetrahedral cell list: every cell is 4 distinct vertices *)
-Definition tet_mesh (cells : list (list nat)) : Prop := Forall cell_ok cells.
-Definition face (cells : list (list nat)) (f : nat) : list nat := nth f (faces_of cells) [].
-Definition edge (cells : list (list nat)) (e : nat) : list nat := nth e (edges_of cells) [].
-Definition cell (cells : list (list nat)) (c : nat) : list nat := nth c cells [].
+(* a volume as handed to the constructor: cells, plus the faces and edges declared beforehand (a .mesh file with boundary
+   triangles, procedural.tetrahedron(volume=True), ...) *)
+Record vmesh := { m_cells : list (list nat); m_faces0 : list (list nat); m_edges0 : list (list nat) }.
+Definition faces_of (M : vmesh) : list (list nat) := complete_faces (m_faces0 M) (m_cells M).
+Definition edges_of (M : vmesh) : list (list nat) := complete_edges (m_edges0 M) (faces_of M).
+Definition tables (M : vmesh) : tabs := build (m_cells M) (faces_of M) (edges_of M).
+(* a tetrahedral mesh: every cell is 4 distinct vertices; the declared faces are pairwise distinct triangles, EACH A TRIANGLE
+   OF SOME CELL; the declared edges are pairwise distinct pairs of distinct vertices *)
+Definition tet_mesh (M : vmesh) : Prop :=
+  Forall cell_ok (m_cells M) /\ faces0_ok (m_faces0 M)
+  /\ (forall F, In F (m_faces0 M) -> exists C, In C (m_cells M) /\ incl F C)
+  /\ edges0_ok (m_edges0 M).
+Definition face (M : vmesh) (f : nat) : list nat := nth f (faces_of M) [].
+Definition edge (M : vmesh) (e : nat) : list nat := nth e (edges_of M) [].
+Definition cell (M : vmesh) (c : nat) : list nat := nth c (m_cells M) [].
+Definition only_cells (cells : list (list nat)) : vmesh := {| m_cells := cells; m_faces0 := []; m_edges0 := [] |}.
 
 Section Main.
-  Variable cells : list (list nat).
-  Hypothesis H : tet_mesh cells.
+  Variable M : vmesh.
+  Hypothesis HM : tet_mesh M.
+  Let cells := m_cells M.
+  Lemma H : Forall cell_ok cells.
+  Proof. apply HM. Qed.
 
-  Lemma Hf : faces_wf cells (faces_of cells).
-  Proof. now apply complete_faces_wf. Qed.
-  Lemma He : edges_wf (faces_of cells) (edges_of cells).
-  Proof. apply complete_edges_wf. apply (fw_shape _ _ Hf). Qed.
+  Lemma Hf : faces_wf cells (faces_of M).
+  Proof. apply complete_faces_wf; [exact H|apply HM]. Qed.
+  Lemma He : edges_wf (faces_of M) (edges_of M).
+  Proof. apply complete_edges_wf; [apply (fw_shape _ _ Hf)|apply HM]. Qed.
 
   (* --- completion *)
   Theorem faces_edges_from_cells :
-    faces_wf cells (faces_of cells) /\ edges_wf (faces_of cells) (edges_of cells)
-    /\ (forall F, In F (faces_of cells) -> exists C, In C cells /\ In F (tet_faces C)).
-  Proof. split; [exact Hf|]. split; [exact He|]. apply complete_faces_origin. Qed.
+    faces_wf cells (faces_of M) /\ edges_wf (faces_of M) (edges_of M)
+    /\ (forall F, In F (faces_of M) -> In F (m_faces0 M) \/ exists C, In C cells /\ In F (tet_faces C))
+    /\ (forall F, In F (faces_of M) -> exists C, In C cells /\ incl F C).
+  Proof.
+    split; [exact Hf|]. split; [exact He|]. split; [apply complete_faces_origin|].
+    apply complete_faces_minimal; [exact H|apply HM].
+  Qed.
 
   (* --- no exception while building the tables *)
-  Theorem tables_ok : t_ok (tables cells) = true.
+  Theorem tables_ok : t_ok (tables M) = true.
   Proof. apply cell_adj_ok_true; [exact H|exact Hf]. Qed.
 
   (* --- incidence *)
   Theorem face_to_cells_is_brute_force f :
-    f < length (faces_of cells) ->
-    F2C (t_f2c (tables cells)) f
-    = filter (fun c => subsetb (face cells f) (cell cells c)) (seq 0 (length cells)).
+    f < length (faces_of M) ->
+    F2C (t_f2c (tables M)) f
+    = filter (fun c => subsetb (face M f) (cell M c)) (seq 0 (length cells)).
   Proof.
     intros L. cbn [tables build t_f2c]. rewrite (F2C_tab cells) by assumption.
     now apply face_to_cells_correct; [exact H|exact Hf|].
@@ -47,106 +62,106 @@ Section Main.
 
   Theorem cell_to_face_is_opposite_faces c :
     c < length cells ->
-    exists l, C2F (t_c2f (tables cells)) c = l /\ length l = 4 /\
+    exists l, C2F (t_c2f (tables M)) c = l /\ length l = 4 /\
       forall i, i < 4 ->
         let f := nth i l 0 in
-        f < length (faces_of cells) /\ Permutation (face cells f) (rm i (cell cells c))
-        /\ incl (face cells f) (cell cells c) /\ ~ In (nth i (cell cells c) 0) (face cells f).
-  Proof. intros L. apply (cell_to_face_correct cells (faces_of cells) H Hf c L). Qed.
+        f < length (faces_of M) /\ Permutation (face M f) (rm i (cell M c))
+        /\ incl (face M f) (cell M c) /\ ~ In (nth i (cell M c) 0) (face M f).
+  Proof. intros L. apply (cell_to_face_correct cells (faces_of M) H Hf c L). Qed.
 
   Theorem cell_to_cell_is_brute_force :
     conforming cells ->
-    exists t, t_c2c (tables cells) = Ok t /\
+    exists t, t_c2c (tables M) = Ok t /\
       forall c, c < length cells ->
-        C2C t c = flat_map (fun i => filter (fun c2 => negb (c2 =? c) && subsetb (rm i (cell cells c)) (cell cells c2))
+        C2C t c = flat_map (fun i => filter (fun c2 => negb (c2 =? c) && subsetb (rm i (cell M c)) (cell M c2))
                                             (seq 0 (length cells))) (seq 0 4).
   Proof.
     intros Cf. eexists. split.
-    - cbn [tables build t_c2c]. apply (c2c_tab_correct cells (faces_of cells) H Hf).
+    - cbn [tables build t_c2c]. apply (c2c_tab_correct cells (faces_of M) H Hf).
     - intros c L. now apply (cell_to_cell_correct cells Cf).
   Qed.
 
   Theorem vertex_to_cell_is_brute_force v c :
-    (In c (V2C cells v) <-> c < length cells /\ In v (cell cells c)) /\ NoDup (V2C cells v).
+    (In c (V2C cells v) <-> c < length cells /\ In v (cell M c)) /\ NoDup (V2C cells v).
   Proof. split; [apply vertex_to_cell_correct|apply vertex_to_cell_NoDup]. Qed.
 
   Theorem edge_to_face_is_brute_force e :
-    e < length (edges_of cells) ->
-    nth e (t_e2f (tables cells)) []
-    = filter (fun f => subsetb (edge cells e) (face cells f)) (seq 0 (length (faces_of cells))).
+    e < length (edges_of M) ->
+    nth e (t_e2f (tables M)) []
+    = filter (fun f => subsetb (edge M e) (face M f)) (seq 0 (length (faces_of M))).
   Proof.
-    intros L. cbn [tables build t_e2f]. rewrite (E2F_tab (faces_of cells) (edges_of cells)) by assumption.
-    now apply (edge_to_face_correct cells (faces_of cells) (edges_of cells) Hf He).
+    intros L. cbn [tables build t_e2f]. rewrite (E2F_tab (faces_of M) (edges_of M)) by assumption.
+    now apply (edge_to_face_correct cells (faces_of M) (edges_of M) Hf He).
   Qed.
 
   Theorem edge_to_cell_is_brute_force e c :
-    e < length (edges_of cells) ->
-    (In c (nth e (t_e2c (tables cells)) []) <-> c < length cells /\ incl (edge cells e) (cell cells c))
-    /\ NoDup (nth e (t_e2c (tables cells)) []).
+    e < length (edges_of M) ->
+    (In c (nth e (t_e2c (tables M)) []) <-> c < length cells /\ incl (edge M e) (cell M c))
+    /\ NoDup (nth e (t_e2c (tables M)) []).
   Proof.
     intros L. cbn [tables build t_e2c]. split.
-    - now apply (edge_to_cell_correct cells (faces_of cells) (edges_of cells) H Hf He).
+    - now apply (edge_to_cell_correct cells (faces_of M) (edges_of M) H Hf He).
     - apply edge_to_cell_NoDup.
   Qed.
 
   (* --- border *)
-  Definition n_cells_of_face (f : nat) : nat := length (cells_with cells (face cells f)).
-  Let bf := t_bf (tables cells).
+  Definition n_cells_of_face (f : nat) : nat := length (cells_with cells (face M f)).
+  Let bf := t_bf (tables M).
 
-  Lemma Hmin : forall F, In F (faces_of cells) -> exists C, In C cells /\ incl F C.
-  Proof. now apply complete_faces_minimal. Qed.
+  Lemma Hmin : forall F, In F (faces_of M) -> exists C, In C cells /\ incl F C.
+  Proof. apply complete_faces_minimal; [exact H|apply HM]. Qed.
 
   Theorem border_classification :
-    (forall f, In f bf <-> f < length (faces_of cells) /\ n_cells_of_face f = 1)
-    /\ (forall f, In f (interior_faces (faces_of cells) (t_f2c (tables cells))) <->
-                  f < length (faces_of cells) /\ 2 <= n_cells_of_face f)
-    /\ (forall nv v, In v (boundary_vertices nv (faces_of cells) bf) <->
-                     v < nv /\ exists f, In f bf /\ In v (face cells f))
-    /\ (forall e, In e (boundary_edges (faces_of cells) (edges_of cells) bf) <->
-                  e < length (edges_of cells) /\ exists f, In f bf /\ incl (edge cells e) (face cells f)).
+    (forall f, In f bf <-> f < length (faces_of M) /\ n_cells_of_face f = 1)
+    /\ (forall f, In f (interior_faces (faces_of M) (t_f2c (tables M))) <->
+                  f < length (faces_of M) /\ 2 <= n_cells_of_face f)
+    /\ (forall nv v, In v (boundary_vertices nv (faces_of M) bf) <->
+                     v < nv /\ exists f, In f bf /\ In v (face M f))
+    /\ (forall e, In e (boundary_edges (faces_of M) (edges_of M) bf) <->
+                  e < length (edges_of M) /\ exists f, In f bf /\ incl (edge M e) (face M f)).
   Proof.
-    split; [intros f; apply (boundary_faces_correct cells (faces_of cells) H Hf Hmin)|].
-    split; [intros f; apply (interior_faces_correct cells (faces_of cells) H Hf)|].
+    split; [intros f; apply (boundary_faces_correct cells (faces_of M) H Hf Hmin)|].
+    split; [intros f; apply (interior_faces_correct cells (faces_of M) H Hf)|].
     split; [intros nv v; apply boundary_vertices_correct|].
-    intros e. apply (boundary_edges_correct cells (faces_of cells) (edges_of cells) H Hf He Hmin).
+    intros e. apply (boundary_edges_correct cells (faces_of M) (edges_of M) H Hf He Hmin).
   Qed.
 
   Theorem border_partitions nv :
-    Permutation (bf ++ interior_faces (faces_of cells) (t_f2c (tables cells))) (seq 0 (length (faces_of cells)))
-    /\ Permutation (boundary_vertices nv (faces_of cells) bf ++ interior_vertices nv (faces_of cells) bf) (seq 0 nv)
-    /\ Permutation (boundary_edges (faces_of cells) (edges_of cells) bf ++ interior_edges (faces_of cells) (edges_of cells) bf)
-                   (seq 0 (length (edges_of cells))).
+    Permutation (bf ++ interior_faces (faces_of M) (t_f2c (tables M))) (seq 0 (length (faces_of M)))
+    /\ Permutation (boundary_vertices nv (faces_of M) bf ++ interior_vertices nv (faces_of M) bf) (seq 0 nv)
+    /\ Permutation (boundary_edges (faces_of M) (edges_of M) bf ++ interior_edges (faces_of M) (edges_of M) bf)
+                   (seq 0 (length (edges_of M))).
   Proof. split; [apply faces_partition|]. split; [apply vertices_partition|apply edges_partition]. Qed.
 
   (* --- the boundary is closed *)
   Theorem boundary_closed :
     conforming cells -> forall E, edge_ok E ->
-    Nat.even (length (filter (fun f => subsetb E (face cells f)) bf)) = true.
+    Nat.even (length (filter (fun f => subsetb E (face M f)) bf)) = true.
   Proof.
-    intros Cf E HE. apply (border_faces_around_even cells (faces_of cells) H Hf Cf Hmin E HE).
+    intros Cf E HE. apply (border_faces_around_even cells (faces_of M) H Hf Cf Hmin E HE).
   Qed.
 
   (* --- _BoundaryConnectivity: nothing raises, edge maps total and inverse *)
   Theorem boundary_connectivity_maps pos vs :
-    NoDup vs -> (forall f v, In f bf -> In v (face cells f) -> In v vs) ->
+    NoDup vs -> (forall f v, In f bf -> In v (face M f) -> In v vs) ->
     exists bfs m,
-      bc_faces cells (faces_of cells) pos (t_f2c (tables cells)) vs bf = Ok bfs
-      /\ bc_edge_map (edges_of cells) (complete_edges [] bfs) vs
-                     (boundary_edges (faces_of cells) (edges_of cells) bf) = Ok m
-      /\ map fst m = boundary_edges (faces_of cells) (edges_of cells) bf
+      bc_faces cells (faces_of M) pos (t_f2c (tables M)) vs bf = Ok bfs
+      /\ bc_edge_map (edges_of M) (complete_edges [] bfs) vs
+                     (boundary_edges (faces_of M) (edges_of M) bf) = Ok m
+      /\ map fst m = boundary_edges (faces_of M) (edges_of M) bf
       /\ (forall b, b < length (complete_edges [] bfs) -> exists e, In (e, b) m)
       /\ (forall e b, dict_get m e = Some b <-> dict_get (map swap m) b = Some e).
   Proof.
     intros ND HV. cbn [tables build t_f2c t_bf] in *.
-    destruct (map_res_total (bc_face cells (faces_of cells) pos (f2c_tab (faces_of cells) (c2f_tab cells (faces_of cells))) vs)
-                (boundary_faces (faces_of cells) (f2c_tab (faces_of cells) (c2f_tab cells (faces_of cells)))))
+    destruct (map_res_total (bc_face cells (faces_of M) pos (f2c_tab (faces_of M) (c2f_tab cells (faces_of M))) vs)
+                (boundary_faces (faces_of M) (f2c_tab (faces_of M) (c2f_tab cells (faces_of M)))))
       as [bfs Eb].
-    { intros f Hfin. apply (bc_face_total cells (faces_of cells) pos H Hf Hmin vs ND HV f Hfin). }
+    { intros f Hfin. apply (bc_face_total cells (faces_of M) pos H Hf Hmin vs ND HV f Hfin). }
     exists bfs.
-    destruct (edge_map_total cells (faces_of cells) (edges_of cells) pos H Hf He Hmin vs ND bfs Eb) as [m [Em [Fm Tm]]].
+    destruct (edge_map_total cells (faces_of M) (edges_of M) pos H Hf He Hmin vs ND bfs Eb) as [m [Em [Fm Tm]]].
     exists m. split; [exact Eb|]. split; [exact Em|]. split; [exact Fm|]. split; [exact Tm|].
-    assert (NDbe : NoDup (boundary_edges (faces_of cells) (edges_of cells)
-                            (boundary_faces (faces_of cells) (f2c_tab (faces_of cells) (c2f_tab cells (faces_of cells))))))
+    assert (NDbe : NoDup (boundary_edges (faces_of M) (edges_of M)
+                            (boundary_faces (faces_of M) (f2c_tab (faces_of M) (c2f_tab cells (faces_of M))))))
       by apply NoDup_filter, seq_NoDup.
     destruct (edge_maps_inverse _ _ _ _ _ (ew_keys _ _ He) NDbe Em) as [_ INV]. exact INV.
   Qed.
@@ -154,74 +169,88 @@ Section Main.
   (* --- closedness of the extracted surfaces *)
   Theorem extracted_surfaces_closed pos vs sfaces :
     conforming cells -> NoDup vs ->
-    (bc_faces cells (faces_of cells) pos (t_f2c (tables cells)) vs bf = Ok sfaces
-     \/ ex_faces (faces_of cells) vs bf = Ok sfaces) ->
+    (bc_faces cells (faces_of M) pos (t_f2c (tables M)) vs bf = Ok sfaces
+     \/ ex_faces cells (faces_of M) pos (t_f2c (tables M)) vs bf = Ok sfaces) ->
     (forall a1 a2 u v, b2m vs a1 = Some u -> b2m vs a2 = Some v -> a1 <> a2 ->
        Nat.even (length (filter (fun T => subsetb [a1; a2] T) sfaces)) = true)
-    /\ (manifold_boundary cells (faces_of cells) ->
+    /\ (manifold_boundary cells (faces_of M) ->
         forall T a1 a2, In T sfaces -> In a1 T -> In a2 T -> a1 <> a2 ->
           length (filter (fun T' => subsetb [a1; a2] T') sfaces) = 2).
   Proof.
     intros Cf ND E. cbn [tables build t_f2c t_bf] in *.
-    assert (R : Forall2 (fun f T => renumbers vs T (nth f (faces_of cells) []))
-                        (boundary_faces (faces_of cells) (f2c_tab (faces_of cells) (c2f_tab cells (faces_of cells)))) sfaces).
+    assert (R : Forall2 (fun f T => renumbers vs T (nth f (faces_of M) []))
+                        (boundary_faces (faces_of M) (f2c_tab (faces_of M) (c2f_tab cells (faces_of M)))) sfaces).
     { destruct E as [E|E].
-      - now apply (bc_faces_renumber cells (faces_of cells) pos).
-      - apply ex_faces_renumber; [apply (fw_shape _ _ Hf) | | assumption].
-        intros f Hfin. apply (boundary_faces_correct cells (faces_of cells) H Hf Hmin) in Hfin. tauto. }
+      - now apply (bc_faces_renumber cells (faces_of M) pos).
+      - apply (ex_faces_renumber cells (faces_of M) pos (f2c_tab (faces_of M) (c2f_tab cells (faces_of M))) vs); [apply (fw_shape _ _ Hf) | | assumption].
+        intros f Hfin. apply (boundary_faces_correct cells (faces_of M) H Hf Hmin) in Hfin. tauto. }
     split.
-    - intros a1 a2 u v. now apply (surface_closed cells (faces_of cells) H Hf Cf Hmin vs ND sfaces R).
-    - intros MB. now apply (surface_edges_have_two_faces cells (faces_of cells) H Hf Cf Hmin vs ND sfaces R).
+    - intros a1 a2 u v. now apply (surface_closed cells (faces_of M) H Hf Cf Hmin vs ND sfaces R).
+    - intros MB. now apply (surface_edges_have_two_faces cells (faces_of M) H Hf Cf Hmin vs ND sfaces R).
   Qed.
 
-  (* --- standalone extractor: stored order = convention order of a cell containing the face; outward if that cell is positive *)
-  Theorem standalone_faces_outward pos f :
-    f < length (faces_of cells) ->
-    exists C i, In C cells /\ i < 4 /\ face cells f = nth i (tet_faces C) [] /\ incl (face cells f) C
-                /\ ~ In (nth i C 0) (face cells f)
-                /\ (cell_positive pos C -> face_outward pos (face cells f) (nth i C 0)).
+  (* --- standalone extractor (after the repair 832f457): every border face comes out renumbered and outward *)
+  Theorem standalone_faces_outward pos vs f T :
+    In f bf -> ex_face cells (faces_of M) pos (t_f2c (tables M)) vs f = Ok T ->
+    exists a b c d iC p q r,
+      face M f = [a; b; c] /\ hd_error (F2C (t_f2c (tables M)) f) = Some iC
+      /\ hd_error (others (cell M iC) [a; b; c]) = Some d
+      /\ map (b2m vs) T = [Some p; Some q; Some r]
+      /\ Permutation [p; q; r] [a; b; c]
+      /\ (det_3x3 (vsub3 (pos a) (pos d)) (vsub3 (pos b) (pos d)) (vsub3 (pos c) (pos d)) <> 0%Z ->
+          outward_Z (pos p) (pos q) (pos r) (pos d) = true).
   Proof.
-    intros L. assert (I : In (face cells f) (faces_of cells)) by now apply nth_In.
-    destruct (complete_faces_origin cells _ I) as [C [HC HF]].
-    pose proof (proj1 (Forall_forall _ _) H C HC) as OK.
-    destruct (cell_ok_shape C OK) as [v0 [v1 [v2 [v3 ->]]]].
-    cbn [tet_faces] in HF. destruct (In_nth _ _ [] HF) as [i [Li Ei]].
-    pose proof (tet_table_lengths v0 v1 v2 v3) as [LL _]. rewrite LL in Li.
-    exists [v0; v1; v2; v3], i. split; [assumption|]. split; [assumption|].
-    split; [now rewrite <- Ei|].
-    pose proof (tet_row_perm_completion v0 v1 v2 v3 i Li) as P. rewrite Ei in P.
-    split; [intros x Hx; apply (rm_incl i); now apply (Permutation_in _ P)|].
-    split.
-    - intros X. apply (rm_not_in i [v0; v1; v2; v3]); [apply OK | cbn [length]; lia |].
-      now apply (Permutation_in _ P).
-    - intros CP. rewrite <- Ei. now apply convention_faces_outward.
+    intros Hfin E. cbn [tables build t_f2c t_bf] in *.
+    pose proof (proj1 (boundary_faces_correct cells (faces_of M) H Hf Hmin f) Hfin) as [L N1].
+    apply (ex_face_outward cells (faces_of M) pos _ vs f T E).
+    - apply (face_ok_nth cells (faces_of M) Hf f L).
+    - rewrite (F2C_is_cells_with cells (faces_of M) H Hf) by assumption.
+      unfold n_cells_with in N1. intros X. rewrite X in N1. discriminate.
+  Qed.
+
+  Theorem extractors_emit_the_same_faces pos vs f :
+    In f bf ->
+    ex_face cells (faces_of M) pos (t_f2c (tables M)) vs f = bc_face cells (faces_of M) pos (t_f2c (tables M)) vs f.
+  Proof.
+    intros Hfin. cbn [tables build t_f2c t_bf] in *.
+    pose proof (proj1 (boundary_faces_correct cells (faces_of M) H Hf Hmin f) Hfin) as [L N1].
+    apply extractors_agree.
+    - apply (face_ok_nth cells (faces_of M) Hf f L).
+    - rewrite (F2C_is_cells_with cells (faces_of M) H Hf) by assumption.
+      unfold n_cells_with in N1. intros X. rewrite X in N1. discriminate.
   Qed.
 
   (* --- ring: the rotational sort (Proofs_Ring.v, Proofs_Sort.v, Proofs_Cover.v) *)
   Theorem edge_ring e start :
-    e < length (edges_of cells) -> In start (nth e (t_e2c (tables cells)) []) ->
+    e < length (edges_of M) -> In start (nth e (t_e2c (tables M)) []) ->
     exists A B b cs fs,
-      edge cells e = [A; B] /\
-      sorted_edge cells (faces_of cells) (edges_of cells) (t_f2c (tables cells))
-                  (nth e (t_e2c (tables cells)) []) (nth e (t_e2f (tables cells)) []) e start = Ok (b, cs, fs)
-      /\ Permutation cs (nth e (t_e2c (tables cells)) []) /\ Permutation fs (nth e (t_e2f (tables cells)) [])
-      /\ (b = true -> NoDup cs /\ Sorted (adjacent_around cells (faces_of cells) A B) cs /\ In start cs)
-      /\ (conforming cells -> link_connected cells (faces_of cells) A B (nth e (t_e2c (tables cells)) []) -> b = true).
+      edge M e = [A; B] /\
+      sorted_edge cells (faces_of M) (edges_of M) (t_f2c (tables M))
+                  (nth e (t_e2c (tables M)) []) (nth e (t_e2f (tables M)) []) e start = Ok (b, cs, fs)
+      /\ Permutation cs (nth e (t_e2c (tables M)) []) /\ Permutation fs (nth e (t_e2f (tables M)) [])
+      /\ (b = true -> NoDup cs /\ Sorted (adjacent_around cells (faces_of M) A B) cs /\ In start cs)
+      /\ (conforming cells -> link_connected cells (faces_of M) A B (nth e (t_e2c (tables M)) []) -> b = true).
   Proof.
     intros L Hs. cbn [tables build t_f2c t_e2c t_e2f] in *.
-    destruct (edge_ring_sorted cells (faces_of cells) (edges_of cells) H Hf He e start L Hs)
+    destruct (edge_ring_sorted cells (faces_of M) (edges_of M) H Hf He e start L Hs)
       as [A [B [b [cs [fs [EE [SE [P1 [P2 SO]]]]]]]]].
     exists A, B, b, cs, fs. repeat (split; [assumption|]).
     intros Cf LC.
-    apply (edge_ring_covered cells (faces_of cells) (edges_of cells) H Hf He Cf Hmin e start A B L Hs EE LC b cs fs SE).
+    apply (edge_ring_covered cells (faces_of M) (edges_of M) H Hf He Cf Hmin e start A B L Hs EE LC b cs fs SE).
   Qed.
 End Main.
 
 (* ------------------------------------------------------------------ non-vacuity: concrete meshes *)
 (* the unit cube cut into 5 tetrahedra, vertex orders of both signs *)
 Definition cube5 : list (list nat) := [[0; 3; 5; 6]; [1; 0; 3; 5]; [2; 3; 0; 6]; [4; 0; 5; 6]; [7; 6; 5; 3]].
+(* the same with two border triangles and one interior triangle declared beforehand (arbitrary vertex order) and two
+   declared edges *)
+Definition cube5_declared : vmesh :=
+  {| m_cells := cube5; m_faces0 := [[5; 0; 3]; [6; 3; 0]; [1; 3; 0]]; m_edges0 := [[3; 0]; [5; 6]] |}.
 (* two tetrahedra glued along the edge {0,1} only: conforming, but the cells of that edge are not face-connected *)
 Definition two_tets_on_an_edge : list (list nat) := [[0; 1; 2; 3]; [0; 1; 4; 5]].
+(* four tetrahedra around the interior edge {0,1}: a closed ring *)
+Definition ring4 : list (list nat) := [[0; 1; 2; 3]; [1; 0; 4; 3]; [0; 1; 4; 5]; [5; 2; 0; 1]].
 
 Fixpoint nodupb (l : list nat) : bool := match l with [] => true | x :: t => negb (memb x t) && nodupb t end.
 Lemma nodupb_NoDup l : nodupb l = true -> NoDup l.
@@ -229,45 +258,155 @@ Proof.
   induction l as [|x t IH]; simpl; intros E; [constructor|]. apply andb_true_iff in E. destruct E as [A B].
   constructor; [|now apply IH]. apply memb_false. now apply negb_true_iff.
 Qed.
-Definition tet_meshb (cells : list (list nat)) : bool := forallb (fun C => (length C =? 4) && nodupb C) cells.
-Lemma tet_meshb_spec cells : tet_meshb cells = true -> tet_mesh cells.
+Fixpoint nodupkb (l : list (list nat)) : bool :=
+  match l with [] => true | x :: t => negb (existsb (leqb (key x)) (map key t)) && nodupkb t end.
+Lemma nodupkb_NoDup l : nodupkb l = true -> NoDup (map key l).
 Proof.
-  unfold tet_meshb, tet_mesh. rewrite forallb_forall. intros E. apply Forall_forall. intros C HC.
+  induction l as [|x t IH]; simpl; intros E; [constructor|]. apply andb_true_iff in E. destruct E as [A B].
+  constructor; [|now apply IH]. intros I. apply negb_true_iff in A.
+  assert (existsb (leqb (key x)) (map key t) = true) by (apply existsb_exists; exists (key x); split; [assumption|apply leqb_refl]).
+  congruence.
+Qed.
+Definition shapeb (k : nat) (l : list (list nat)) : bool := forallb (fun C => (length C =? k) && nodupb C) l.
+Lemma shapeb_spec k l : shapeb k l = true -> Forall (fun C => length C = k /\ NoDup C) l.
+Proof.
+  unfold shapeb. rewrite forallb_forall. intros E. apply Forall_forall. intros C HC.
   specialize (E C HC). apply andb_true_iff in E. destruct E as [A B]. split; [now apply Nat.eqb_eq|now apply nodupb_NoDup].
 Qed.
+Definition tet_meshb (M : vmesh) : bool :=
+  shapeb 4 (m_cells M) && nodupkb (m_faces0 M) && shapeb 3 (m_faces0 M)
+  && forallb (fun F => existsb (subsetb F) (m_cells M)) (m_faces0 M)
+  && nodupkb (m_edges0 M) && shapeb 2 (m_edges0 M).
+Lemma tet_meshb_spec M : tet_meshb M = true -> tet_mesh M.
+Proof.
+  unfold tet_meshb, tet_mesh. rewrite !andb_true_iff. intros [[[[[A B] C] D] E] F].
+  split; [now apply (shapeb_spec 4)|]. split; [split; [now apply nodupkb_NoDup|now apply (shapeb_spec 3)]|].
+  split; [|split; [now apply nodupkb_NoDup|now apply (shapeb_spec 2)]].
+  intros X HX. rewrite forallb_forall in D. specialize (D X HX). apply existsb_exists in D.
+  destruct D as [Cc [HC S]]. exists Cc. split; [assumption|now apply subsetb_incl].
+Qed.
 
-Example cube5_is_a_conforming_tet_mesh : tet_mesh cube5 /\ conforming cube5.
+Example cube5_is_a_conforming_tet_mesh : tet_mesh (only_cells cube5) /\ conforming cube5.
 Proof. split; [apply tet_meshb_spec|apply conformingb_spec]; vm_compute; reflexivity. Qed.
+Example cube5_declared_is_a_tet_mesh : tet_mesh cube5_declared /\ length (faces_of cube5_declared) = 16
+                                       /\ nth 0 (faces_of cube5_declared) [] = [5; 0; 3].
+Proof. split; [apply tet_meshb_spec; vm_compute; reflexivity|]. vm_compute. split; reflexivity. Qed.
 Example cube5_has_interior_and_border_faces :
-  length (t_bf (tables cube5)) = 12 /\ length (interior_faces (faces_of cube5) (t_f2c (tables cube5))) = 4.
+  length (t_bf (tables (only_cells cube5))) = 12
+  /\ length (interior_faces (faces_of (only_cells cube5)) (t_f2c (tables (only_cells cube5)))) = 4.
 Proof. vm_compute. split; reflexivity. Qed.
 Example cube5_edge_0_3_has_two_border_faces :
-  length (filter (fun f => subsetb [0; 3] (face cube5 f)) (t_bf (tables cube5))) = 2.
+  length (filter (fun f => subsetb [0; 3] (face (only_cells cube5) f)) (t_bf (tables (only_cells cube5)))) = 2.
 Proof. vm_compute. reflexivity. Qed.
-Example two_tets_is_a_conforming_tet_mesh : tet_mesh two_tets_on_an_edge /\ conforming two_tets_on_an_edge.
+Example two_tets_is_a_conforming_tet_mesh : tet_mesh (only_cells two_tets_on_an_edge) /\ conforming two_tets_on_an_edge.
 Proof. split; [apply tet_meshb_spec|apply conformingb_spec]; vm_compute; reflexivity. Qed.
+Example ring4_is_a_conforming_tet_mesh : tet_mesh (only_cells ring4) /\ conforming ring4.
+Proof. split; [apply tet_meshb_spec|apply conformingb_spec]; vm_compute; reflexivity. Qed.
+
+(* a declared pre-oriented face comes out of both extractors outward, whatever order it was declared in *)
+Definition cube_pos (v : nat) : vec :=
+  nth v [(0, 0, 0); (1, 0, 0); (0, 1, 0); (1, 1, 0); (0, 0, 1); (1, 0, 1); (0, 1, 1); (1, 1, 1)]%Z (0, 0, 0)%Z.
+Example declared_face_extracted_outward :
+  let M := cube5_declared in
+  let vs := border_vertex_set (faces_of M) (t_bf (tables M)) in
+  In 2 (t_bf (tables M)) /\ face M 2 = [1; 3; 0] /\ vs = [1; 2; 4; 0; 3; 7; 6; 5]
+  /\ ex_face (m_cells M) (faces_of M) cube_pos (t_f2c (tables M)) vs 2 = Ok [0; 3; 4]
+  /\ bc_face (m_cells M) (faces_of M) cube_pos (t_f2c (tables M)) vs 2 = Ok [0; 3; 4]
+  /\ outward_Z (cube_pos 1) (cube_pos 0) (cube_pos 3) (cube_pos 5) = true
+  /\ outward_Z (cube_pos 1) (cube_pos 3) (cube_pos 0) (cube_pos 5) = false.
+Proof. vm_compute. repeat split; try reflexivity. now left. Qed.
+
+(* both sign conventions are inhabited: the cell (0,3,5,6) of cube5 is positive in mouette's determinant
+   det(pA-pD,pB-pD,pC-pD), i.e. LEFT-handed in the usual convention; swapping two vertices gives a right-handed cell *)
+Example cube5_first_cell_signs :
+  cell_positive cube_pos [0; 3; 5; 6]
+  /\ (det_3x3 (vsub3 (cube_pos 3) (cube_pos 0)) (vsub3 (cube_pos 5) (cube_pos 0)) (vsub3 (cube_pos 6) (cube_pos 0)) < 0)%Z
+  /\ (0 < det_3x3 (vsub3 (cube_pos 0) (cube_pos 3)) (vsub3 (cube_pos 5) (cube_pos 3)) (vsub3 (cube_pos 6) (cube_pos 3)))%Z.
+Proof. repeat split; vm_compute; reflexivity. Qed.
 
 (* ------------------------------------------------------------------ the former known finding (repaired by e464500):
    two tetrahedra sharing only an edge - the cells of that edge are not face-connected, the lists are left unsorted,
    nothing is raised *)
 Example two_tets_edge_left_unsorted :
-  forallb (fun s => match sorted_edge two_tets_on_an_edge (faces_of two_tets_on_an_edge) (edges_of two_tets_on_an_edge)
-                                  (t_f2c (tables two_tets_on_an_edge)) (nth 5 (t_e2c (tables two_tets_on_an_edge)) [])
-                                  (nth 5 (t_e2f (tables two_tets_on_an_edge)) []) 5 s with
+  let M := only_cells two_tets_on_an_edge in
+  forallb (fun s => match sorted_edge two_tets_on_an_edge (faces_of M) (edges_of M)
+                                  (t_f2c (tables M)) (nth 5 (t_e2c (tables M)) [])
+                                  (nth 5 (t_e2f (tables M)) []) 5 s with
                     | Ok (false, [0; 1], [2; 3; 6; 7]) => true
                     | _ => false
-                    end) (nth 5 (t_e2c (tables two_tets_on_an_edge)) []) = true
-  /\ nth 5 (t_e2c (tables two_tets_on_an_edge)) [] = [0; 1].
+                    end) (nth 5 (t_e2c (tables M)) []) = true
+  /\ nth 5 (t_e2c (tables M)) [] = [0; 1].
 Proof. vm_compute. split; reflexivity. Qed.
 
-(* on an edge whose cells are face-connected the same function succeeds and returns the ring *)
-Example cube5_interior_edges_sort :
-  forallb (fun e => match nth e (t_e2c (tables cube5)) [] with
-                    | s :: _ => match sorted_edge cube5 (faces_of cube5) (edges_of cube5) (t_f2c (tables cube5))
-                                                 (nth e (t_e2c (tables cube5)) []) (nth e (t_e2f (tables cube5)) []) e s with
-                                | Ok (true, cs, fs) => (length fs =? S (length cs)) || (length fs =? length cs)
-                                | _ => false
-                                end
-                    | [] => false
-                    end) (seq 0 (length (edges_of cube5))) = true.
-Proof. vm_compute. reflexivity. Qed.
+(* every edge of cube5 is sorted (open fans), and the interior edge {0,1} of ring4 is sorted as a CLOSED ring
+   (as many faces as cells) from every start cell *)
+Definition sorts_all (M : vmesh) : bool :=
+  forallb (fun e => forallb (fun s =>
+             match sorted_edge (m_cells M) (faces_of M) (edges_of M) (t_f2c (tables M))
+                               (nth e (t_e2c (tables M)) []) (nth e (t_e2f (tables M)) []) e s with
+             | Ok (true, cs, fs) => (length fs =? S (length cs)) || (length fs =? length cs)
+             | _ => false
+             end) (nth e (t_e2c (tables M)) [])) (seq 0 (length (edges_of M))).
+Example cube5_edges_sort : sorts_all (only_cells cube5) = true /\ sorts_all cube5_declared = true.
+Proof. vm_compute. split; reflexivity. Qed.
+Example ring4_closed_ring :
+  let M := only_cells ring4 in
+  edge M 5 = [0; 1] /\ length (nth 5 (t_e2c (tables M)) []) = 4 /\
+  forallb (fun s => match sorted_edge ring4 (faces_of M) (edges_of M) (t_f2c (tables M))
+                                  (nth 5 (t_e2c (tables M)) []) (nth 5 (t_e2f (tables M)) []) 5 s with
+                    | Ok (true, cs, fs) => (length cs =? 4) && (length fs =? 4)
+                    | _ => false
+                    end) (nth 5 (t_e2c (tables M)) []) = true.
+Proof. vm_compute. repeat split; reflexivity. Qed.
+
+(* link_connected is inhabited: an edge with one cell, or with two cells sharing a face through it *)
+Lemma link_connected_two cells faces A B a b :
+  adjacent_around cells faces A B a b -> link_connected cells faces A B [a; b].
+Proof.
+  intros AD S [s [Hs Ss]] CL c Hc.
+  assert (Sa : S a).
+  { destruct Hs as [E|[E|[]]]; subst s; [assumption|]. apply (CL b a Ss); [now left|]. now apply adjacent_sym. }
+  destruct Hc as [E|[E|[]]]; subst c; [assumption|]. apply (CL a b Sa); [right; now left|assumption].
+Qed.
+Lemma link_connected_one cells faces A B a : link_connected cells faces A B [a].
+Proof. intros S [s [[E|[]] Ss]] _ c [E'|[]]. now subst. Qed.
+Example single_tet_edges_link_connected :
+  let M := only_cells [[0; 1; 2; 3]] in
+  forall e, e < length (edges_of M) ->
+    exists A B, edge M e = [A; B] /\ link_connected (m_cells M) (faces_of M) A B (nth e (t_e2c (tables M)) []).
+Proof.
+  intros M e L. change (length (edges_of M)) with 6 in L.
+  destruct e as [|[|[|[|[|[|]]]]]]; try lia; eexists; eexists; (split; [vm_compute; reflexivity|]);
+    apply link_connected_one.
+Qed.
+
+(* manifold_boundary is decidable on the vertices of the border faces and holds of cube5 *)
+Definition manifold_boundaryb (cells faces : list (list nat)) : bool :=
+  let bf := boundary_faces faces (f2c_tab faces (c2f_tab cells faces)) in
+  let V := border_vertex_set faces bf in
+  forallb (fun u => forallb (fun v => (u =? v) || (length (filter (fun f => subsetb [u; v] (nth f faces [])) bf) <=? 2)) V) V.
+Lemma manifold_boundaryb_spec cells faces : manifold_boundaryb cells faces = true -> manifold_boundary cells faces.
+Proof.
+  unfold manifold_boundaryb, manifold_boundary. intros E u v N.
+  set (bf := boundary_faces faces (f2c_tab faces (c2f_tab cells faces))) in *.
+  destruct (filter (fun f => subsetb [u; v] (nth f faces [])) bf) as [|f rest] eqn:EF; [cbn [length]; lia|].
+  assert (Hf : In f (filter (fun f => subsetb [u; v] (nth f faces [])) bf)) by (rewrite EF; now left).
+  apply filter_In in Hf. destruct Hf as [Hf S]. apply subsetb_incl in S.
+  assert (IV : forall w, In w [u; v] -> In w (border_vertex_set faces bf)).
+  { intros w Hw. unfold border_vertex_set. apply nodup_In. apply in_flat_map. exists f. split; [assumption|now apply S]. }
+  rewrite forallb_forall in E. specialize (E u (IV u (or_introl eq_refl))).
+  rewrite forallb_forall in E. specialize (E v (IV v (or_intror (or_introl eq_refl)))).
+  apply orb_true_iff in E. destruct E as [E|E]; [apply Nat.eqb_eq in E; contradiction|].
+  apply Nat.leb_le in E. now rewrite <- EF.
+Qed.
+Example cube5_boundary_is_a_manifold : manifold_boundary cube5 (faces_of (only_cells cube5)).
+Proof. apply manifold_boundaryb_spec. vm_compute. reflexivity. Qed.
+
+(* OUTSIDE the quantifier (the guard `each declared face is a triangle of some cell` in tet_mesh): a declared face lying in
+   no cell is listed among boundary_faces (is_face_on_border tests n < 2) and makes _BoundaryConnectivity raise
+   (face_to_cells(iF)[0]: IndexError); the model says so too *)
+Example declared_face_in_no_cell_is_outside :
+  let M := {| m_cells := [[0; 1; 2; 3]]; m_faces0 := [[0; 1; 4]]; m_edges0 := [] |} in
+  tet_meshb M = false /\ In 0 (t_bf (tables M)) /\ F2C (t_f2c (tables M)) 0 = []
+  /\ bc_faces (m_cells M) (faces_of M) (fun _ => (0, 0, 0)%Z) (t_f2c (tables M)) [0; 1; 4; 3; 2] (t_bf (tables M)) = Exn.
+Proof. vm_compute. repeat split; try reflexivity. now left. Qed.
